@@ -651,6 +651,13 @@ pub fn replay_bounded(unit: &str) -> Option<i32> {
         "b_generate_constructed" => run_grid(unit, contract_generate_constructed, limit),
         "b_c04_component_bounds" => run_grid(unit, contract_generate_component_bounds, limit),
         "b_generate_enumerated" => run_grid(unit, contract_generate_enumerated, limit),
+        "b_c04_named_number_via_reference" => run_grid(unit, contract_named_number_through_reference, limit),
+        "b_c04_string_component_size" => run_grid(unit, contract_generate_string_component_size, limit),
+        "b_c07_format_oid" => run_grid(unit, contract_format_oid, limit),
+        "b_module_header_parser" => run_grid(unit, contract_module_header_parser, limit),
+        "b_c04_constraint_parser" => run_grid(unit, contract_constraint_parser, limit),
+        "b_c07_cstring_parser" => run_grid(unit, contract_cstring_parser, limit),
+        "b_c07_bitstring_literal_parser" => run_grid(unit, contract_bitstring_literal_parser, limit),
         "b_c03_element_tag" => run_grid(unit, contract_generate_element_tag, limit),
         "b_resolve_class_reference_frame" => run_grid(unit, contract_resolve_class_reference_frame, limit),
         "b_c02_component_types" => run_grid(unit, contract_generate_component_types, limit),
@@ -730,8 +737,12 @@ pub fn contract_integer_set_expression<C: Ctx>(cx: &mut C) {
         set = ElementOrSetOperation::SetOperation(SetOperation { base: a, operator: ops[o1].clone(), operant: Box::new(rest) });
     }
     let outer_marker = cx.any_bool();
-    let constraint = Constraint::Subtype(ElementSetSpecs { set, extensible: outer_marker });
-    cx.describe(|| format!("expr=({}){}", render_set(match &constraint { Constraint::Subtype(s) => &s.set, _ => unreachable!() }), if outer_marker { " followed by `, ...`" } else { "" }));
+    // a trailing `, ...` is attached by the lexer to the last operand when that operand is a value or a range
+    let last_operand_marker = cx.any_bool();
+    let set = if last_operand_marker { mark_last(set) } else { set };
+    let outer_marker = outer_marker || last_operand_marker;
+    let constraint = Constraint::Subtype(ElementSetSpecs { set, extensible: outer_marker && !last_operand_marker });
+    cx.describe(|| format!("expr=({}){}", render_set(match &constraint { Constraint::Subtype(s) => &s.set, _ => unreachable!() }), if last_operand_marker { " with `, ...` attached to the last operand" } else if outer_marker { " followed by `, ...`" } else { "" }));
     let folded: Result<PerVisibleRangeConstraints, _> = (&constraint).try_into();
     match folded {
         Ok(r) => {
@@ -757,6 +768,19 @@ pub fn contract_integer_set_expression<C: Ctx>(cx: &mut C) {
             vob!(cx, "C06.component_path.marker_reaches_the_width_selection", (got.lo.is_none() && got.hi.is_none()) || !outer_marker || r.is_extensible());
         }
         Err(_) => { vob!(cx, "C04.fold.folds_without_error", false); }
+    }
+}
+/// sets the extensible flag of the last (right-most) operand
+fn mark_last(e: crate::intermediate::constraints::ElementOrSetOperation) -> crate::intermediate::constraints::ElementOrSetOperation {
+    use crate::intermediate::constraints::*;
+    let mark = |s: SubtypeElements| match s {
+        SubtypeElements::SingleValue { value, .. } => SubtypeElements::SingleValue { value, extensible: true },
+        SubtypeElements::ValueRange { min, max, .. } => SubtypeElements::ValueRange { min, max, extensible: true },
+        other => other,
+    };
+    match e {
+        ElementOrSetOperation::Element(s) => ElementOrSetOperation::Element(mark(s)),
+        ElementOrSetOperation::SetOperation(o) => ElementOrSetOperation::SetOperation(SetOperation { base: o.base, operator: o.operator, operant: Box::new(mark_last(*o.operant)) }),
     }
 }
 #[cfg(not(kani))]
@@ -851,12 +875,13 @@ pub fn contract_generate_constructed<C: Ctx>(cx: &mut C) {
             extensibility_environment: if implied { ExtensibilityEnvironment::Implied } else { ExtensibilityEnvironment::Explicit }, imports: vec![], exports: None }));
         // optionally component f0 is an anonymous SEQUENCE { x BOOLEAN } that has to be hoisted into an item of its own
         let nested = cx.any_bool();
+        let nested_recursive = nested && cx.any_bool();   // the linker marked the anonymous component as recursive
         let ty = if nested {
             let inner = ASN1Type::Sequence(SequenceOrSet { components_of: vec![], extensible: None, constraints: vec![], members: vec![SequenceOrSetMember { name: "x".into(), tag: None, ty: ASN1Type::Boolean(Boolean { constraints: vec![] }), optionality: Optionality::Required, is_recursive: false, constraints: vec![] }] });
             match ty {
-                ASN1Type::Choice(mut c) => { c.options[0].ty = inner; ASN1Type::Choice(c) }
-                ASN1Type::Sequence(mut s) => { s.members[0].ty = inner; ASN1Type::Sequence(s) }
-                ASN1Type::Set(mut s) => { s.members[0].ty = inner; ASN1Type::Set(s) }
+                ASN1Type::Choice(mut c) => { c.options[0].ty = inner; c.options[0].is_recursive = nested_recursive; ASN1Type::Choice(c) }
+                ASN1Type::Sequence(mut s) => { s.members[0].ty = inner; s.members[0].is_recursive = nested_recursive; ASN1Type::Sequence(s) }
+                ASN1Type::Set(mut s) => { s.members[0].ty = inner; s.members[0].is_recursive = nested_recursive; ASN1Type::Set(s) }
                 other => other,
             }
         } else { ty };
@@ -865,9 +890,10 @@ pub fn contract_generate_constructed<C: Ctx>(cx: &mut C) {
         let top_tag = if top_tagged { Some(AsnTag { environment: env, tag_class: TagClass::Application, id: 3 }) } else { None };
         let tld_with = |h: &Rc<RefCell<ModuleHeader>>, ty: &ASN1Type, tag: Option<AsnTag>| ToplevelDefinition::Type(ToplevelTypeDefinition { comments: String::new(), tag, name: "T".into(), ty: ty.clone(), parameterization: None, module_header: Some(h.clone()) });
         let tld = |h: &Rc<RefCell<ModuleHeader>>, ty: &ASN1Type| tld_with(h, ty, None);
-        cx.describe(|| format!("module_default={env:?} extensibility_implied={implied} kind={} f0_is_anonymous_sequence={nested} type_assignment_tagged={top_tagged} components={n} first_addition_index={extensible:?} optional={:?} tagged={:?}", ["SEQUENCE", "SET", "CHOICE"][kind], &optional[..n], &tagged[..n]));
+        cx.describe(|| format!("module_default={env:?} extensibility_implied={implied} kind={} f0_is_anonymous_sequence={nested} f0_marked_recursive={nested_recursive} type_assignment_tagged={top_tagged} components={n} first_addition_index={extensible:?} optional={:?} tagged={:?}", ["SEQUENCE", "SET", "CHOICE"][kind], &optional[..n], &tagged[..n]));
         let h = header("M", env, implied);
         let mut backend = crate::generator::rasn::Rasn::default();
+        let top_tag_again = top_tag.clone();
         let out = backend.generate_module(vec![tld_with(&h, &ty, top_tag)]);
         let generated = match out { Ok(m) if m.warnings.is_empty() => m.generated.unwrap_or_default(), _ => { vob!(cx, "C02.generate.constructed_type_is_generated", false); return; } };
         let Some((attrs, fields)) = item_of(&generated, "T") else { vob!(cx, "C02.generate.constructed_type_is_generated", false); return; };
@@ -893,6 +919,7 @@ pub fn contract_generate_constructed<C: Ctx>(cx: &mut C) {
             // the anonymous type is generated as an item of its own, keeps its component, and inherits the module's defaults
             let hoisted = item_of(&generated, "TF0");
             vob!(cx, "C02.generate.anonymous_nested_type_is_hoisted_with_its_components", matches!(&hoisted, Some((_, fs)) if fs.len() == 1 && fs[0].contains("pub x : bool")) && fields[0].contains("TF0"));
+            vob!(cx, "C02.generate.recursive_anonymous_component_is_boxed", fields[0].contains("Box < TF0 >") == nested_recursive);
             if let Some((inner_attrs, _)) = &hoisted {
                 vob!(cx, "C05.generate.nested_type_extensible_iff_extensibility_implied", inner_attrs.contains("non_exhaustive") == implied);
                 vob!(cx, "C03.generate.nested_type_automatic_tags_iff_automatic_module", inner_attrs.contains("automatic_tags") == (env == TaggingEnvironment::Automatic));
@@ -916,6 +943,11 @@ pub fn contract_generate_constructed<C: Ctx>(cx: &mut C) {
         let second = backend.generate_module(vec![tld(&h2, &plain)]).ok().and_then(|m| m.generated).unwrap_or_default();
         let leaked = match item_of(&second, "T") { Some((a, _)) => a.contains("non_exhaustive") != other_implied, None => true };
         vob!(cx, "C05.generate.extensibility_default_taken_from_the_types_own_module", !leaked);
+        // ... and so is the tagging default: module N says AUTOMATIC TAGS and its only component is untagged
+        vob!(cx, "C03.generate.tagging_default_taken_from_the_types_own_module", matches!(item_of(&second, "T"), Some((a, _)) if a.contains("automatic_tags")));
+        // and back again: a third module with the first module's defaults generates the first type exactly as before
+        let third = backend.generate_module(vec![tld_with(&h, &ty, top_tag_again)]).ok().and_then(|m| m.generated).unwrap_or_default();
+        vob!(cx, "C03.generate.module_defaults_do_not_depend_on_earlier_modules", third == generated);
     }
     #[cfg(kani)]
     { let _ = cx; }
@@ -1016,8 +1048,12 @@ pub fn contract_recursion_marking<C: Ctx>(cx: &mut C) {
             for _ in 0..n {
                 let t = cx.choose(2 * k + 1);
                 let r = |i: usize| ASN1Type::ElsewhereDeclaredType(DeclarationElsewhere { parent: None, module: None, identifier: NAMES[i].into(), constraints: vec![] });
+                // a reference may also sit inside an anonymous nested SEQUENCE / CHOICE
+                let wrap = if t >= 1 && t <= k { cx.choose(3) } else { 0 };
                 tys.push(if t == 0 { (ASN1Type::Boolean(Boolean { constraints: vec![] }), "BOOLEAN".to_string()) }
-                    else if t <= k { (r(t - 1), NAMES[t - 1].to_string()) }
+                    else if t <= k && wrap == 0 { (r(t - 1), NAMES[t - 1].to_string()) }
+                    else if t <= k && wrap == 1 { (ASN1Type::Sequence(SequenceOrSet { components_of: vec![], extensible: None, constraints: vec![], members: vec![SequenceOrSetMember { name: "n".into(), tag: None, ty: r(t - 1), optionality: Optionality::Optional, is_recursive: false, constraints: vec![] }] }), format!("SEQUENCE {{ n {} }}", NAMES[t - 1])) }
+                    else if t <= k { (ASN1Type::Choice(Choice { extensible: None, constraints: vec![], options: vec![ChoiceOption { name: "n".into(), tag: None, ty: r(t - 1), constraints: vec![], is_recursive: false }] }), format!("CHOICE {{ n {} }}", NAMES[t - 1])) }
                     else { (ASN1Type::SequenceOf(SequenceOrSetOf { constraints: vec![], element_type: Box::new(r(t - k - 1)), element_tag: None, is_recursive: false }), format!("SEQUENCE OF {}", NAMES[t - k - 1])) });
             }
             shape.push_str(&format!("{} ::= {} {{ {} }} ", NAMES[d], ["SEQUENCE", "SET", "CHOICE"][kind], tys.iter().map(|t| t.1.clone()).collect::<Vec<_>>().join(", ")));
@@ -1050,8 +1086,18 @@ pub fn contract_recursion_marking<C: Ctx>(cx: &mut C) {
                     _ => vec![],
                 };
                 for (ty, boxed) in members {
-                    if let (ASN1Type::ElsewhereDeclaredType(e), false) = (ty, boxed) {
-                        if let Some(j) = NAMES.iter().position(|n| *n == e.identifier) { edge[d][j] = true; }
+                    if boxed { continue; }
+                    // direct reference, or a reference held by an un-boxed component of an un-boxed anonymous nested type
+                    let mut targets: Vec<&ASN1Type> = vec![];
+                    match ty {
+                        ASN1Type::Sequence(inner) | ASN1Type::Set(inner) => targets.extend(inner.members.iter().filter(|m| !m.is_recursive).map(|m| &m.ty)),
+                        ASN1Type::Choice(inner) => targets.extend(inner.options.iter().filter(|o| !o.is_recursive).map(|o| &o.ty)),
+                        other => targets.push(other),
+                    }
+                    for t in targets {
+                        if let ASN1Type::ElsewhereDeclaredType(e) = t {
+                            if let Some(j) = NAMES.iter().position(|n| *n == e.identifier) { edge[d][j] = true; }
+                        }
                     }
                 }
             }
@@ -1136,7 +1182,7 @@ pub fn contract_generate_enumerated<C: Ctx>(cx: &mut C) {
         let start = cx.choose(6);
         let ext = cx.choose(n + 2);
         let extensible = if ext == 0 { None } else { Some(ext - 1) };
-        let members: Vec<Enumeral> = (0..n).map(|i| Enumeral { name: POOL[(start + i) % 6].into(), description: None, index: NUMBERS[(start + 2 * i) % 6] + i as i128 * 1000 }).collect();
+        let members: Vec<Enumeral> = (0..n).map(|i| Enumeral { name: POOL[(start + i) % 6].into(), description: None, index: NUMBERS[(start + 2 * i) % 6] + if (start + i) % 2 == 0 { 1000 * (4 - i as i128) } else { -1000 * i as i128 } }).collect();
         cx.describe(|| format!("enumerals={:?} first_addition_index={extensible:?}", members.iter().map(|m| format!("{}({})", m.name, m.index)).collect::<Vec<_>>()));
         let ty = ASN1Type::Enumerated(Enumerated { members: members.clone(), extensible, constraints: vec![] });
         let h = Rc::new(RefCell::new(ModuleHeader { name: "M".into(), module_identifier: None, encoding_reference_default: None, tagging_environment: TaggingEnvironment::Automatic, extensibility_environment: ExtensibilityEnvironment::Explicit, imports: vec![], exports: None }));
@@ -1301,13 +1347,15 @@ pub fn contract_generate_component_types<C: Ctx>(cx: &mut C) {
         let (asn_type_name, rust_type_name) = TYPE_NAMES[cx.choose(3)];
         let member_ty = if position == 3 { ASN1Type::SequenceOf(SequenceOrSetOf { constraints: vec![], element_type: Box::new(ty.clone()), element_tag: None, is_recursive: false }) } else { ty.clone() };
         let optionality = match opt { 0 => Optionality::Required, 1 => Optionality::Optional, _ => Optionality::Default(default_value.clone().unwrap()) };
+        // the linker's "recursive" mark: only meaningful for references (and, below, anonymous nested types)
+        let recursive = asn_name == "reference" && position != 3 && cx.any_bool();
         let outer = if position == 2 {
-            ASN1Type::Choice(Choice { extensible: None, constraints: vec![], options: vec![ChoiceOption { name: "f0".into(), tag: None, ty: member_ty, constraints: vec![], is_recursive: false }] })
+            ASN1Type::Choice(Choice { extensible: None, constraints: vec![], options: vec![ChoiceOption { name: "f0".into(), tag: None, ty: member_ty, constraints: vec![], is_recursive: recursive }] })
         } else {
-            let s = SequenceOrSet { components_of: vec![], extensible: None, constraints: vec![], members: vec![SequenceOrSetMember { name: "f0".into(), tag: None, ty: member_ty, optionality, is_recursive: false, constraints: vec![] }] };
+            let s = SequenceOrSet { components_of: vec![], extensible: None, constraints: vec![], members: vec![SequenceOrSetMember { name: "f0".into(), tag: None, ty: member_ty, optionality, is_recursive: recursive, constraints: vec![] }] };
             if position == 1 { ASN1Type::Set(s) } else { ASN1Type::Sequence(s) }
         };
-        cx.describe(|| format!("{asn_type_name} ::= {} {{ f0 {}{asn_name}{} }}", ["SEQUENCE", "SET", "CHOICE", "SEQUENCE"][position], if position == 3 { "SEQUENCE OF " } else { "" }, ["", " OPTIONAL", " DEFAULT <value>"][opt]));
+        cx.describe(|| format!("{asn_type_name} ::= {} {{ f0 {}{asn_name}{} }}", ["SEQUENCE", "SET", "CHOICE", "SEQUENCE"][position], if position == 3 { "SEQUENCE OF " } else { "" }, ["", " OPTIONAL", " DEFAULT <value>"][opt]) + if recursive { " (component marked recursive)" } else { "" });
         let h = Rc::new(RefCell::new(ModuleHeader { name: "M".into(), module_identifier: None, encoding_reference_default: None, tagging_environment: TaggingEnvironment::Automatic, extensibility_environment: ExtensibilityEnvironment::Explicit, imports: vec![], exports: None }));
         let tld = ToplevelDefinition::Type(ToplevelTypeDefinition { comments: String::new(), tag: None, name: asn_type_name.into(), ty: outer, parameterization: None, module_header: Some(h) });
         let mut backend = crate::generator::rasn::Rasn::default();
@@ -1315,7 +1363,7 @@ pub fn contract_generate_component_types<C: Ctx>(cx: &mut C) {
         let Some((_, fields)) = item_of(&generated, rust_type_name) else { vob!(cx, "C02.generate.component_is_generated", false); return; };
         if fields.len() != 1 { vob!(cx, "C02.generate.component_is_generated", false); return; }
         let f = &fields[0];
-        let base = if position == 3 { format!("SequenceOf < {rust_ty} >") } else { rust_ty.to_string() };
+        let base = if position == 3 { format!("SequenceOf < {rust_ty} >") } else if recursive { format!("Box < {rust_ty} >") } else { rust_ty.to_string() };
         let want_ty = if opt == 1 { format!("Option < {base} >") } else { base };
         let got_ty = if position == 2 { { let t = f.rsplit("f0 (").next().unwrap_or("").trim(); t.strip_suffix(')').unwrap_or(t).trim().to_string() } } else { f.rsplit("pub f0 :").next().unwrap_or("").trim().to_string() };
         vob!(cx, "C02.generate.component_rust_type_corresponds_to_the_asn1_type", got_ty == want_ty);
@@ -1416,6 +1464,292 @@ pub fn contract_generate_element_tag<C: Ctx>(cx: &mut C) {
             vob!(cx, "C03.generate.element_tag_is_rendered_with_class_number_and_mode", generated.contains(explicit_form));
         } else {
             vob!(cx, "C03.generate.element_tag_is_rendered_with_class_number_and_mode", generated.contains(implicit_form) && !generated.contains(explicit_form));
+        }
+    }
+    #[cfg(kani)]
+    { let _ = cx; }
+}
+
+// ================================================================================================
+// Parser-level contracts (nom combinators; outside both verifiers) — bounded stand-ins (native) on the real parsers
+// ================================================================================================
+
+/// C03 / C05 — module header defaults: `module_header` -> `environments` (lexer/module_header.rs).
+/// The TAGS clause and EXTENSIBILITY IMPLIED are independent; each is carried into the header as written.
+/// (A header WITHOUT TAGS clause is parsed as IMPLICIT although X.680 §13.2 says EXPLICIT; that is pinned by the
+/// unit tests of lexer::module_header and is not asserted here.)
+pub fn contract_module_header_parser<C: Ctx>(cx: &mut C) {
+    #[cfg(not(kani))]
+    {
+        let tags = cx.choose(4); // 0 none, 1 AUTOMATIC, 2 IMPLICIT, 3 EXPLICIT
+        let implied = cx.any_bool();
+        let instructions = cx.any_bool();
+        let with_oid = cx.any_bool();
+        let src = format!("My-Module {}DEFINITIONS {}{}{}::= BEGIN", if with_oid { "{ iso(1) standard(0) 5 } " } else { "" }, if instructions { "PER INSTRUCTIONS " } else { "" },
+            ["", "AUTOMATIC TAGS ", "IMPLICIT TAGS ", "EXPLICIT TAGS "][tags], if implied { "EXTENSIBILITY IMPLIED " } else { "" });
+        cx.describe(|| src.clone());
+        match crate::lexer::verif_module_header(src.as_str().into()) {
+            Ok((_, h)) => {
+                vob!(cx, "C03.module_header_parser.module_name_kept", h.name == "My-Module");
+                if tags > 0 {
+                    vob!(cx, "C03.module_header_parser.tags_clause_as_written", h.tagging_environment == [TaggingEnvironment::Automatic, TaggingEnvironment::Implicit, TaggingEnvironment::Explicit][tags - 1]);
+                }
+                vob!(cx, "C05.module_header_parser.extensibility_implied_iff_written", (h.extensibility_environment == ExtensibilityEnvironment::Implied) == implied);
+            }
+            Err(_) => { vob!(cx, "C03.module_header_parser.parses", false); }
+        }
+    }
+    #[cfg(kani)]
+    { let _ = cx; }
+}
+
+/// C04 — the subtype-expression parser (lexer/constraint.rs `constraints`): operands, every spelling of the set
+/// operators, MIN/MAX, and the extension marker.  Expressions `a`, `a op b`, `a op b op c` over single values and ranges.
+pub fn contract_constraint_parser<C: Ctx>(cx: &mut C) {
+    #[cfg(not(kani))]
+    {
+        use crate::intermediate::constraints::*;
+        // operand: (source text, expected element without marker)
+        let operand = |cx: &mut C| -> (String, SubtypeElements) {
+            match cx.choose(5) {
+                0 => ("5".into(), SubtypeElements::SingleValue { value: ASN1Value::Integer(5), extensible: false }),
+                1 => ("-3".into(), SubtypeElements::SingleValue { value: ASN1Value::Integer(-3), extensible: false }),
+                2 => ("0..10".into(), SubtypeElements::ValueRange { min: Some(ASN1Value::Integer(0)), max: Some(ASN1Value::Integer(10)), extensible: false }),
+                3 => ("MIN..7".into(), SubtypeElements::ValueRange { min: None, max: Some(ASN1Value::Integer(7)), extensible: false }),
+                _ => ("-1..MAX".into(), SubtypeElements::ValueRange { min: Some(ASN1Value::Integer(-1)), max: None, extensible: false }),
+            }
+        };
+        const OPS: [(&str, usize); 5] = [("|", 0), ("UNION", 0), ("^", 1), ("INTERSECTION", 1), ("EXCEPT", 2)];
+        let want_op = |k: usize| [SetOperator::Union, SetOperator::Intersection, SetOperator::Except][k].clone();
+        let n = 1 + cx.choose(3);
+        let (t1, e1) = operand(cx);
+        let marker = cx.any_bool();
+        let mut src = format!("({t1}");
+        let mut ops = vec![];
+        let mut elems = vec![e1];
+        for _ in 1..n {
+            let (sym, k) = OPS[cx.choose(5)];
+            let (t, e) = operand(cx);
+            src.push_str(&format!(" {sym} {t}"));
+            ops.push(k);
+            elems.push(e);
+        }
+        if marker { src.push_str(", ..."); }
+        src.push(')');
+        cx.describe(|| src.clone());
+        let parsed = crate::lexer::verif_constraints(src.as_str().into());
+        let Ok((_, cs)) = parsed else { vob!(cx, "C04.constraint_parser.parses", false); return; };
+        let Some(Constraint::Subtype(spec)) = cs.first() else { vob!(cx, "C04.constraint_parser.parses", false); return; };
+        vob!(cx, "C04.constraint_parser.one_constraint_per_parenthesis", cs.len() == 1);
+        // flatten the right-nested IR into operands and operators, ignoring where the marker was attached
+        let mut got_elems = vec![]; let mut got_ops = vec![]; let mut any_marker = spec.extensible;
+        let mut cur = &spec.set;
+        loop {
+            match cur {
+                ElementOrSetOperation::Element(e) => { got_elems.push(e.clone()); break; }
+                ElementOrSetOperation::SetOperation(o) => { got_elems.push(o.base.clone()); got_ops.push(o.operator.clone()); cur = &o.operant; }
+            }
+        }
+        let strip = |e: &SubtypeElements, any: &mut bool| -> SubtypeElements { match e {
+            SubtypeElements::SingleValue { value, extensible } => { *any = *any || *extensible; SubtypeElements::SingleValue { value: value.clone(), extensible: false } }
+            SubtypeElements::ValueRange { min, max, extensible } => { *any = *any || *extensible; SubtypeElements::ValueRange { min: min.clone(), max: max.clone(), extensible: false } }
+            other => other.clone(),
+        } };
+        let got_stripped: Vec<SubtypeElements> = got_elems.iter().map(|e| strip(e, &mut any_marker)).collect();
+        vob!(cx, "C04.constraint_parser.operands_in_source_order_with_their_bounds", got_stripped == elems);
+        vob!(cx, "C04.constraint_parser.every_spelling_of_the_set_operators", got_ops == ops.iter().map(|k| want_op(*k)).collect::<Vec<_>>());
+        // C06: a union parsed as an intersection narrows the range the width is selected from
+        vob!(cx, "C06.constraint_parser.union_and_intersection_not_confused", got_ops == ops.iter().map(|k| want_op(*k)).collect::<Vec<_>>());
+        vob!(cx, "C04.constraint_parser.extension_marker_iff_written", any_marker == marker);
+    }
+    #[cfg(kani)]
+    { let _ = cx; }
+}
+
+/// C07 — cstring literals (lexer/character_string.rs `cstring`): the characters between the quotes, with each
+/// doubled quotation mark standing for one quotation mark.
+pub fn contract_cstring_parser<C: Ctx>(cx: &mut C) {
+    #[cfg(not(kani))]
+    {
+        // the abstract value is built from pieces; `"` pieces are written doubled in the source
+        const PIECES: [&str; 5] = ["a", "\"", " b", "\u{e9}", "-- x"];
+        let n = cx.choose(6);
+        let mut value = String::new();
+        let mut src = String::from("\"");
+        for _ in 0..n {
+            let p = PIECES[cx.choose(5)];
+            value.push_str(p);
+            src.push_str(&p.replace('"', "\"\""));
+        }
+        src.push('"');
+        cx.describe(|| format!("source={src} abstract_value={value:?}"));
+        // followed by something that is not a quote, as in a real module
+        let text = format!("{src} END");
+        match crate::lexer::verif_cstring(text.as_str().into()) {
+            Ok((_, got)) => { vob!(cx, "C07.cstring.characters_kept_and_doubled_quotes_unescaped", got == value); }
+            Err(_) => { vob!(cx, "C07.cstring.parses", false); }
+        }
+    }
+    #[cfg(kani)]
+    { let _ = cx; }
+}
+
+/// C07 — bstring / hstring literals (lexer/bit_string.rs `bit_string_value`): bit for bit, MSB first per hex digit.
+pub fn contract_bitstring_literal_parser<C: Ctx>(cx: &mut C) {
+    #[cfg(not(kani))]
+    {
+        let hex = cx.any_bool();
+        let n = cx.choose(4);
+        let mut digits = String::new();
+        let mut want: Vec<bool> = vec![];
+        for _ in 0..n {
+            if hex {
+                let d = cx.choose(16);
+                digits.push(char::from_digit(d as u32, 16).unwrap().to_ascii_uppercase());
+                for k in (0..4).rev() { want.push((d >> k) & 1 == 1); }
+            } else {
+                let b = cx.any_bool();
+                digits.push(if b { '1' } else { '0' });
+                want.push(b);
+            }
+        }
+        let src = format!("'{digits}'{}", if hex { "H" } else { "B" });
+        cx.describe(|| src.clone());
+        match crate::lexer::verif_bit_string_value(src.as_str().into()) {
+            Ok((_, ASN1Value::BitString(bits))) => { vob!(cx, "C07.bitstring_literal.bit_for_bit", bits == want); }
+            _ => { vob!(cx, "C07.bitstring_literal.parses", false); }
+        }
+    }
+    #[cfg(kani)]
+    { let _ = cx; }
+}
+
+/// C07 — OBJECT IDENTIFIER values: `Rasn::format_oid` (generator/rasn/utils.rs) with arcs in number, name(number)
+/// and well-known name form; the emitted arcs are the numbers X.680 §32 / X.660 assign.
+pub fn contract_format_oid<C: Ctx>(cx: &mut C) {
+    #[cfg(not(kani))]
+    {
+        // root arc: (name, number, value, root position for subordinate names)
+        let root_forms: [(Option<&str>, Option<u128>, u128); 7] = [
+            (Some("itu-t"), None, 0), (Some("itu-t"), Some(0), 0), (None, Some(0), 0),
+            (Some("iso"), None, 1), (Some("iso"), Some(1), 1), (None, Some(1), 1), (Some("joint-iso-itu-t"), None, 2),
+        ];
+        let subordinate: [(&str, u128, u128); 10] = [
+            ("recommendation", 0, 0), ("question", 0, 1), ("administration", 0, 2), ("network-operator", 0, 3), ("identified-organization", 0, 4), ("r-recommendation", 0, 5),
+            ("standard", 1, 0), ("registration-authority", 1, 1), ("member-body", 1, 2), ("identified-organization", 1, 3),
+        ];
+        let (rname, rnum, rval) = root_forms[cx.choose(7)];
+        let mut arcs = vec![ObjectIdentifierArc { name: rname.map(String::from), number: rnum }];
+        let mut want = vec![rval];
+        // second arc: a well-known subordinate name of THIS root (name only / name(number)), or a plain number
+        let second = cx.choose(3);
+        let subs: Vec<&(&str, u128, u128)> = subordinate.iter().filter(|s| s.1 == rval).collect();
+        if second < 2 && !subs.is_empty() {
+            let s = subs[cx.choose(subs.len())];
+            arcs.push(ObjectIdentifierArc { name: Some(s.0.into()), number: if second == 1 { Some(s.2) } else { None } });
+            want.push(s.2);
+        } else {
+            arcs.push(ObjectIdentifierArc { name: None, number: Some(840) });
+            want.push(840);
+        }
+        arcs.push(ObjectIdentifierArc { name: Some("leaf".into()), number: Some(113549) });
+        want.push(113549);
+        cx.describe(|| format!("oid={{ {} }}", arcs.iter().map(|a| match (&a.name, a.number) { (Some(n), Some(v)) => format!("{n}({v})"), (Some(n), None) => n.clone(), (None, Some(v)) => v.to_string(), _ => "?".into() }).collect::<Vec<_>>().join(" ")));
+        let backend = crate::generator::rasn::Rasn::default();
+        match backend.format_oid(&ObjectIdentifierValue(arcs)) {
+            Ok(ts) => {
+                let text = ts.to_string();
+                let expected = format!("Oid :: const_new (& [{}]) . to_owned ()", want.iter().map(|v| format!("{v}u32")).collect::<Vec<_>>().join(" , "));
+                vob!(cx, "C07.format_oid.arcs_are_the_assigned_numbers", text == expected);
+            }
+            Err(_) => { vob!(cx, "C07.format_oid.renders", false); }
+        }
+    }
+    #[cfg(kani)]
+    { let _ = cx; }
+}
+
+/// C04 — "named numbers and constrained parent types are resolved": a named number used as a bound of a constraint on
+/// a type REFERENCE is resolved against the referenced (governing) type, not against any other type that happens to
+/// declare the same identifier: ToplevelDefinition::link_constraint_reference -> ASN1Type::link_constraint_reference
+/// (ElsewhereDeclaredType arm) -> Constraint::link_cross_reference -> find_tld_or_enum_value_by_name.
+pub fn contract_named_number_through_reference<C: Ctx>(cx: &mut C) {
+    #[cfg(not(kani))]
+    {
+        use crate::intermediate::constraints::*;
+        use crate::intermediate::encoding_rules::per_visible::per_visible_range_constraints;
+        use crate::intermediate::types::*;
+        use std::collections::BTreeMap;
+        const NAMES: [&str; 3] = ["Alpha", "Beta", "Gamma"];
+        let governing = cx.choose(3);
+        let as_component = cx.any_bool();
+        // the type under definition sorts before / between / after the declaring types
+        let own_name = ["Aaa", "Bzz", "Zzz"][cx.choose(3)];
+        let mut tlds: BTreeMap<String, ToplevelDefinition> = BTreeMap::new();
+        for (i, n) in NAMES.iter().enumerate() {
+            let ty = ASN1Type::Integer(Integer { constraints: vec![], distinguished_values: Some(vec![DistinguishedValue { name: "top".into(), value: 10 * (i as i128 + 1) }]) });
+            tlds.insert((*n).into(), ToplevelDefinition::Type(ToplevelTypeDefinition { comments: String::new(), tag: None, name: (*n).into(), ty, parameterization: None, module_header: None }));
+        }
+        let c = Constraint::Subtype(ElementSetSpecs { set: ElementOrSetOperation::Element(SubtypeElements::ValueRange { min: Some(ASN1Value::Integer(0)), max: Some(ASN1Value::ElsewhereDeclaredValue { module: None, parent: None, identifier: "top".into() }), extensible: false }), extensible: false });
+        let reference = ASN1Type::ElsewhereDeclaredType(DeclarationElsewhere { parent: None, module: None, identifier: NAMES[governing].into(), constraints: vec![c] });
+        let ty = if as_component {
+            ASN1Type::Sequence(SequenceOrSet { components_of: vec![], extensible: None, constraints: vec![], members: vec![SequenceOrSetMember { name: "f".into(), tag: None, ty: reference, optionality: Optionality::Required, is_recursive: false, constraints: vec![] }] })
+        } else { reference };
+        cx.describe(|| format!("Alpha/Beta/Gamma ::= INTEGER {{ top(10/20/30) }}; {own_name} ::= {}{} (0..top){}", if as_component { "SEQUENCE { f " } else { "" }, NAMES[governing], if as_component { " }" } else { "" }));
+        let mut tld = ToplevelDefinition::Type(ToplevelTypeDefinition { comments: String::new(), tag: None, name: own_name.into(), ty, parameterization: None, module_header: None });
+        if tld.has_constraint_reference() {
+            vob!(cx, "C04.named_number_via_reference.linking_succeeds", tld.link_constraint_reference(&tlds).is_ok());
+        }
+        let constraints: Vec<Constraint> = match &tld {
+            ToplevelDefinition::Type(t) => match &t.ty { ASN1Type::Sequence(s) => s.members[0].ty.constraints().to_vec(), other => other.constraints().to_vec() },
+            _ => vec![],
+        };
+        match per_visible_range_constraints(true, &constraints) {
+            Ok(r) => { vob!(cx, "C04.named_number_via_reference.resolved_against_the_referenced_type", r.max::<i128>() == Some(10 * (governing as i128 + 1)) && r.min::<i128>() == Some(0)); }
+            Err(_) => { vob!(cx, "C04.named_number_via_reference.range_computable", false); }
+        }
+    }
+    #[cfg(kani)]
+    { let _ = cx; }
+}
+
+/// C04 — SIZE bounds on character-string components: the known-multiplier types (X.691 §30.1) carry the size
+/// annotation of their constraint; Rasn::format_member_or_option's per-type list.
+pub fn contract_generate_string_component_size<C: Ctx>(cx: &mut C) {
+    #[cfg(not(kani))]
+    {
+        use crate::intermediate::constraints::*;
+        use crate::intermediate::types::*;
+        use crate::generator::Backend;
+        use std::{cell::RefCell, rc::Rc};
+        let kinds = [
+            (CharacterStringType::NumericString, true), (CharacterStringType::PrintableString, true), (CharacterStringType::VisibleString, true),
+            (CharacterStringType::IA5String, true), (CharacterStringType::BMPString, true), (CharacterStringType::UniversalString, true),
+            (CharacterStringType::UTF8String, false), (CharacterStringType::GeneralString, false),
+        ];
+        let (st, known_multiplier) = kinds[cx.choose(kinds.len())];
+        let in_choice = cx.any_bool();
+        let ext = cx.any_bool();
+        let fixed = cx.any_bool();
+        let (lo, hi) = if fixed { (2i128, 2i128) } else { (2, 4) };
+        let c = Constraint::Subtype(ElementSetSpecs { set: ElementOrSetOperation::Element(SubtypeElements::SizeConstraint(Box::new(ElementOrSetOperation::Element(
+            if fixed { SubtypeElements::SingleValue { value: ASN1Value::Integer(2), extensible: ext } } else { SubtypeElements::ValueRange { min: Some(ASN1Value::Integer(lo)), max: Some(ASN1Value::Integer(hi)), extensible: ext } })))), extensible: false });
+        let ty = ASN1Type::CharacterString(CharacterString { constraints: vec![c], ty: st });
+        let outer = if in_choice {
+            ASN1Type::Choice(Choice { extensible: None, constraints: vec![], options: vec![ChoiceOption { name: "f0".into(), tag: None, ty, constraints: vec![], is_recursive: false }] })
+        } else {
+            ASN1Type::Sequence(SequenceOrSet { components_of: vec![], extensible: None, constraints: vec![], members: vec![SequenceOrSetMember { name: "f0".into(), tag: None, ty, optionality: Optionality::Required, is_recursive: false, constraints: vec![] }] })
+        };
+        cx.describe(|| format!("T ::= {} {{ f0 {st:?} (SIZE({}{})) }}", if in_choice { "CHOICE" } else { "SEQUENCE" }, if fixed { "2".to_string() } else { "2..4".to_string() }, if ext { ", ..." } else { "" }));
+        let h = Rc::new(RefCell::new(ModuleHeader { name: "M".into(), module_identifier: None, encoding_reference_default: None, tagging_environment: TaggingEnvironment::Automatic, extensibility_environment: ExtensibilityEnvironment::Explicit, imports: vec![], exports: None }));
+        let tld = ToplevelDefinition::Type(ToplevelTypeDefinition { comments: String::new(), tag: None, name: "T".into(), ty: outer, parameterization: None, module_header: Some(h) });
+        let mut backend = crate::generator::rasn::Rasn::default();
+        let generated = match backend.generate_module(vec![tld]) { Ok(m) if m.warnings.is_empty() => m.generated.unwrap_or_default(), _ => { vob!(cx, "C04.generate.string_component_is_generated", false); return; } };
+        let Some((_, fields)) = item_of(&generated, "T") else { vob!(cx, "C04.generate.string_component_is_generated", false); return; };
+        let range = if fixed { "2".to_string() } else { "2..=4".to_string() };
+        let want = if ext { format!("size (\"{range}\" , extensible)") } else { format!("size (\"{range}\")") };
+        if known_multiplier {
+            vob!(cx, "C04.generate.known_multiplier_string_component_carries_its_size_bound", fields.len() == 1 && fields[0].contains(&want));
         }
     }
     #[cfg(kani)]
